@@ -4,7 +4,7 @@
 //! Discipline: harness bookkeeping uses *real* std mutexes which are only ever held for straight-line
 //! code (never across a vsched operation), so they add no scheduling points and cannot deadlock.
 
-use desync::scheduler::{self, scheduler, JobQueue};
+use desync::scheduler::{self, scheduler, JobQueue, Scheduler};
 use desync::Desync;
 use futures::future::BoxFuture;
 use futures::task::{waker, ArcWake, Context, Poll, Waker};
@@ -137,19 +137,62 @@ impl Cfg {
     }
 }
 
+/// cfg of the scenario instance that is running (set by the explorer before the scenario function is called)
+static CUR_CFG: StdMutex<Option<(u64, Cfg)>> = StdMutex::new(None);
+/// `priv`=1: the scheduler every raw queue of this execution belongs to is a private `Scheduler::new()`; the global one is
+/// kept without threads (address of the leaked instance, freed by `shutdown`)
+static PRIV_SCHED: StdMutex<Option<(u64, usize)>> = StdMutex::new(None);
+
+pub fn set_current_cfg(cfg: &Cfg) {
+    *CUR_CFG.lock().unwrap() = Some((rt::exec_id(), cfg.clone()));
+}
+
+pub fn current_cfg_opt(k: &str, d: i64) -> i64 {
+    match &*CUR_CFG.lock().unwrap() {
+        Some((id, c)) if *id == rt::exec_id() => c.opt(k, d),
+        _ => d,
+    }
+}
+
+/// The scheduler the scenario's raw queues are used with: the global one, or this execution's private instance
+pub fn sched() -> &'static Scheduler {
+    if let Some((id, p)) = *PRIV_SCHED.lock().unwrap() {
+        if id == rt::exec_id() {
+            return unsafe { &*(p as *const Scheduler) };
+        }
+    }
+    scheduler()
+}
+
+pub fn private_scheduler() -> bool {
+    matches!(*PRIV_SCHED.lock().unwrap(), Some((id, _)) if id == rt::exec_id())
+}
+
 pub fn setup(pool: usize) {
     set_inline_wakers(false);
-    scheduler().verif_set_max_threads(pool);
+    if current_cfg_opt("priv", 0) == 1 {
+        let s: &'static Scheduler = Box::leak(Box::new(Scheduler::new()));
+        *PRIV_SCHED.lock().unwrap() = Some((rt::exec_id(), s as *const Scheduler as usize));
+        scheduler().verif_set_max_threads(0);
+    }
+    sched().verif_set_max_threads(pool);
     rt::set_census_limit(POOL_NAME, pool);
 }
 
 /// Stops every pool thread (only call when all work is done)
 pub fn shutdown() {
-    scheduler().verif_set_max_threads(0);
-    scheduler().despawn_threads_if_overloaded();
+    sched().verif_set_max_threads(0);
+    sched().despawn_threads_if_overloaded();
     let live = rt::live_threads_named(POOL_NAME);
     if live != 0 {
         rt::violation(format!("{} pool threads still alive after the maximum was lowered to 0 and despawn_threads_if_overloaded returned", live));
+    }
+    let p = PRIV_SCHED.lock().unwrap().take();
+    if let Some((id, p)) = p {
+        if id == rt::exec_id() {
+            // nothing refers to the private scheduler any more: every thread has been joined, every future is gone
+            drop(unsafe { Box::from_raw(p as *mut Scheduler) });
+        }
     }
 }
 
@@ -744,7 +787,7 @@ impl World {
         let st = Arc::new(ObjState { id: self.next_id.fetch_add(1, AO::SeqCst), occ: AtomicUsize::new(0), dead: AtomicUsize::new(0), inside: StdMutex::new(vec![]) });
         objs.push(st.clone());
         drop(objs);
-        let o = Obj::Raw(scheduler::queue(), st);
+        let o = Obj::Raw(sched().create_job_queue(), st);
         self.harvest(&o);
         o
     }
@@ -776,6 +819,7 @@ impl World {
     }
 
     pub fn desync_obj(&self) -> Obj {
+        assert!(!private_scheduler(), "priv=1 needs raw queues: Desync objects always use the global scheduler");
         let (p, st) = self.new_payload();
         self.objs.lock().unwrap().push(st.clone());
         let o = Obj::D(Arc::new(Desync::new(p)), st);
@@ -793,7 +837,7 @@ impl World {
             Obj::Raw(q, st) => {
                 let st = st.clone();
                 let rec2 = rec.clone();
-                scheduler::desync(q, move || body.run_sync(&rec2, op, &st, &nm));
+                sched().desync(q, move || body.run_sync(&rec2, op, &st, &nm));
             }
             Obj::D(d, _) => {
                 let rec2 = rec.clone();
@@ -821,7 +865,7 @@ impl World {
         let token = match o {
             Obj::Raw(q, st) => {
                 let rec2 = rec.clone();
-                scheduler::sync(q, || {
+                sched().sync(q, || {
                     body.run_sync(&rec2, op, st, &nm);
                     *bref
                 })
@@ -864,7 +908,7 @@ impl World {
         let res = match o {
             Obj::Raw(q, st) => {
                 let rec2 = rec.clone();
-                scheduler::try_sync(q, || {
+                sched().try_sync(q, || {
                     body.run_sync(&rec2, op, st, &nm);
                     *bref
                 })
@@ -918,7 +962,7 @@ impl World {
         let fut = match o {
             Obj::Raw(q, st) => {
                 let (rec2, st) = (rec.clone(), st.clone());
-                scheduler::future_desync(q, move || {
+                sched().future_desync(q, move || {
                     rec2.closure_called(op, &st);
                     async move {
                         run_async(body, rec2, op, st, nm).await;
@@ -962,7 +1006,7 @@ impl World {
         let fut: BoxFuture<'static, Result<u64, futures::channel::oneshot::Canceled>> = match o {
             Obj::Raw(q, st) => {
                 let (rec2, st) = (rec.clone(), st.clone());
-                scheduler().after(q, g, move |_| {
+                sched().after(q, g, move |_| {
                     body.run_sync(&rec2, op, &st, &nm);
                     token
                 })
@@ -995,7 +1039,7 @@ impl World {
                 let (rec2, st) = (rec.clone(), st.clone());
                 // (no destructor probe here: at the scheduler level SyncFuture drops the user's future after it has released the
                 // queue; nothing borrowed from a Desync is involved, and the properties' span ends when the future completes)
-                scheduler::future_sync(q, move || {
+                sched().future_sync(q, move || {
                     rec2.closure_called(op, &st);
                     async move {
                         run_async(body, rec2, op, st, nm).await;
